@@ -308,6 +308,15 @@ fn programs(thorough: bool) -> (Vec<Sx>, BTreeMap<String, u64>) {
             }
         }
     }
+    // every shape with up to 4 (thorough: 5) leaves with pairwise distinct leaves 1, 2, 3, ...: an
+    // error in the ORDER in which nested dotted tails are flattened is invisible with equal
+    // leaves (seed C09-d3)
+    for k in 2..=(if thorough { 5usize } else { 4 }) {
+        for s in shapes(k, if thorough && k <= 4 { 3 } else { 2 }) {
+            let ls: Vec<Sx> = (1..=k as i64).map(Sx::Int).collect();
+            out.push(build_shape(&s, &mut ls.into_iter()));
+        }
+    }
     // depth-5 spines
     let mut spine = Sx::Sym("x");
     for d in 0..5 {
